@@ -12,3 +12,5 @@ ASSUMPTIONS = [K.A_BYTES, K.A_ZLIB, K.A_TABLE, K.A_PRED, "little-endian host for
 OBLIGATIONS = K.READER_COMMON + K.CIR_READER + [K.WIG_BLOCK_R, K.BED_BLOCK_R, K.ZOOM_BLOCK_R, K.SUMMARY_R, K.ITEMCOUNT_R,
                                               K.OVERLAPS, K.QUERY_ARGS, K.WIG_KEEP, K.BED_KEEP, K.ZOOM_KEEP]
 OBLIGATIONS = OBLIGATIONS + [K.BLOCK_DATA, K.SEARCH_ORDER, K.CACHE, K.CACHED_SIBS]
+OBLIGATIONS = OBLIGATIONS + [K.MAGICS]
+OBLIGATIONS = OBLIGATIONS + [K.ARG_NAMES]
